@@ -433,16 +433,20 @@ func (w *c07World) apply(op c07Op) bool {
 // viol records a violation once per (class, subject) and world: a bad state that persists is
 // attributed to the operation after which it first appeared, not to every later operation.
 func (w *c07World) viol(sig string, op c07Op, extra map[string]any) {
-	key := sig + fmt.Sprint(extra["conn"], extra["client"])
+	key := strings.SplitN(sig, "|dead=", 2)[0] + fmt.Sprint(extra["conn"], extra["client"])
 	if w.reported[key] {
 		return
 	}
 	w.reported[key] = true
-	d := map[string]any{"trace": w.tail(), "op": op.String()}
+	d := map[string]any{"trace": w.tail(), "first_seen_after": op.String(), "class": sig}
 	for k, v := range extra {
 		d[k] = v
 	}
-	w.run.Violation(sig+"|op="+op.Kind, d)
+	if strings.Contains(sig, "dead") {
+		w.run.Violation(strings.SplitN(sig, "|dead=", 2)[0], d)
+		return
+	}
+	w.run.Violation(sig+"|op="+strings.TrimPrefix(op.Kind, "reap-after-"), d)
 }
 
 // check evaluates the invariants of the statement on the real state.
